@@ -509,7 +509,11 @@ class IPRoutePrefix(EVPN):
     def construct(cls, value, iswithdraw=False):
         value_hex = b''
         value_hex += cls.construct_rd(value['rd'])
-        value_hex += b'\x00\x00' + struct.pack('!d', value['esi'])
+        if isinstance(value['esi'], dict):
+            value_hex += cls.construct_esi(value['esi'])
+        else:
+            # ESI type 0: one type octet and a 9-octet value
+            value_hex += b'\x00' + binascii.a2b_hex('%018x' % value['esi'])
         value_hex += struct.pack('!I', value['eth_tag_id'])
         value_hex += struct.pack('!B', int(value['prefix'].split('/')[1]))
         value_hex += netaddr.IPAddress(value['prefix'].split('/')[0]).packed
